@@ -369,7 +369,9 @@ func (w *World) checkCommit(ci *fakepg.CommitInfo) {
 		if ic.num-from+1 > int64(max(ps.src.plan.Batch, 1)) {
 			w.violate("step-too-large", "pair %s advanced by %d blocks with batch size %d", ps.key, ic.num-from+1, ps.src.plan.Batch)
 		}
-		w.checkInserted(ps, ci, from, ic)
+		if ps.src.node.Reorgs == 0 {
+			w.checkInserted(ps, ci, from, ic)
+		}
 		ps.everCommitted = true
 		if ic.num > ps.maxEverNum {
 			ps.maxEverNum = ic.num
@@ -496,11 +498,34 @@ func (w *World) checkState(ps *pairState, snap *fakepg.Snapshot, when string) {
 		return
 	}
 	tip := curs[len(curs)-1]
+	if ps.ref.Stop > 0 && tip.num > int64(ps.ref.Stop) {
+		w.violate("beyond-stop", "pair %s recorded position %d beyond stop %d", ps.key, tip.num, ps.ref.Stop)
+	}
+	// no row lies beyond the newest position (holds under any reorg race:
+	// rows and position are written by one transaction, and an unwind removes
+	// everything above the position that remains)
+	if bi := ts.Col("block_num"); bi >= 0 {
+		for _, r := range rows {
+			if n, ok := valInt(r.Vals[bi]); ok && n > tip.num {
+				w.violate("row-beyond-position", "pair %s (%s): a row of block %d exists but the newest recorded position is %d", ps.key, when, n, tip.num)
+				break
+			}
+			if n, ok := valInt(r.Vals[bi]); ok && ps.ref.Start > 0 && n < int64(ps.ref.Start) {
+				w.violate("row-before-start", "pair %s (%s): a row of block %d exists but the configured start is %d", ps.key, when, n, ps.ref.Start)
+				break
+			}
+		}
+	}
 	if ps.origin < 0 {
 		return
 	}
-	if ps.ref.Stop > 0 && tip.num > int64(ps.ref.Stop) {
-		w.violate("beyond-stop", "pair %s recorded position %d beyond stop %d", ps.key, tip.num, ps.ref.Stop)
+	// Exact equality with the projection is decidable at every commit while
+	// the source has never replaced a block. Once it has, a replacement can
+	// race with the RPC calls of a step (or with cached segments) in ways no
+	// client can detect until the next block arrives; then equality is
+	// required at quiescence only (C03), never in between.
+	if ps.src.node.Reorgs > 0 && !(when == "final" && w.quiescent()) {
+		return
 	}
 	blocks, msg := w.branch(ps, ps.origin, tip.num, tip.hash)
 	if msg != "" {
@@ -552,8 +577,30 @@ func (w *World) bound(ps *pairState) int {
 }
 
 func (w *World) onHeal() {
+	if w.plan.Checks["settle"] {
+		// Settling rule (DESIGN section 7, C03): after the last replacement the chain keeps
+		// growing until the head is above the highest position any pair ever
+		// recorded: an equal-height replacement only shows through a child
+		// block, and a position above a shortened head can only report "ahead".
+		for _, ss := range w.srcs {
+			need := int64(-1)
+			for _, ps := range w.pairs {
+				if ps.src == ss && ps.maxEverNum > need {
+					need = ps.maxEverNum
+				}
+			}
+			if d := need + 1 - int64(ss.node.HeadNum()); d > 0 {
+				ss.node.Grow(int(d))
+				w.logf("settle %s +%d head=%d", ss.plan.Name, d, ss.node.HeadNum())
+			} else if ss.node.Reorgs > 0 {
+				ss.node.Grow(1)
+				w.logf("settle %s +1 head=%d", ss.plan.Name, ss.node.HeadNum())
+			}
+		}
+	}
 	for _, ps := range w.pairs {
 		ps.callsHealed = 0
+		ps.quietRun = 0
 		ps.outcomes = nil
 		ps.healBound = w.bound(ps)
 	}
@@ -596,6 +643,11 @@ func (w *World) recordOutcome(ps *pairState, err error) {
 	if name == "done" {
 		ps.done = true
 	}
+	if name == "nothing-new" || name == "done" {
+		ps.quietRun++
+	} else {
+		ps.quietRun = 0
+	}
 	if w.healed {
 		ps.callsHealed++
 		if ps.callsHealed > ps.healBound && !w.pairQuiet(ps) && !ps.stuckReported {
@@ -609,14 +661,13 @@ func (w *World) recordOutcome(ps *pairState, err error) {
 	}
 }
 
+// pairQuiet: the pair returned "nothing new"/"done" often enough in a row
+// that the source must have been asked for its head again: a cached head
+// serves at most maxreads reads (maxreads = number of integrations).
 func (w *World) pairQuiet(ps *pairState) bool {
-	if ps.inCall || len(ps.outcomes) < 2 {
+	need := len(w.plan.Decls) + 2
+	if ps.inCall || ps.quietRun < need {
 		return false
-	}
-	for _, o := range ps.outcomes[len(ps.outcomes)-2:] {
-		if o != "nothing-new" && o != "done" {
-			return false
-		}
 	}
 	return true
 }
